@@ -86,11 +86,18 @@ func (vm *Vm) EXTEND_REVERSED(items py.Tuple) {
 
 // Adds a traceback to the exc passed in for the current vm state
 func (vm *Vm) AddTraceback(exc *py.ExceptionInfo) {
+	// Lasti has already been advanced past the instruction which
+	// raised, which may be the first instruction of the next line,
+	// so look up the line of the last byte of the instruction itself
+	addr := vm.frame.Lasti
+	if addr > 0 {
+		addr--
+	}
 	exc.Traceback = &py.Traceback{
 		Next:   exc.Traceback,
 		Frame:  vm.frame,
 		Lasti:  vm.frame.Lasti,
-		Lineno: vm.frame.Code.Addr2Line(vm.frame.Lasti),
+		Lineno: vm.frame.Code.Addr2Line(addr),
 	}
 }
 
